@@ -147,7 +147,7 @@ Qed.
 Theorem dual_proof_gen_complete repaired hs cons i j :
   wf_hist H hs -> 1 <= i -> i <= j -> j <= lenN hs ->
   (0 < h_bltxid (hd_at hs i) ->
-   verify_consistency H cons (h_bltxid (hd_at hs i)) (h_bltxid (hd_at hs j))
+   verify_consistency_fixed H cons (h_bltxid (hd_at hs i)) (h_bltxid (hd_at hs j))
                       (h_blroot (hd_at hs i)) (h_blroot (hd_at hs j)) = Ok true) ->
   verify_dual_proof_gen H repaired (Some (gen_dual_proof H hs cons i j)) i j (A_at hs i) (A_at hs j) = Ok true.
 Proof.
@@ -166,7 +166,7 @@ Proof.
   rewrite bytes_eqb_refl. cbn [negb].
   rewrite (alh_of_valid H th Vt). cbn [bind]. fold (A_at hs j).
   rewrite bytes_eqb_refl. cbn [negb].
-  assert (Cons : (if 0 <? bs then verify_consistency H cons bs b (h_blroot sh) (h_blroot th) else Ok true) = Ok true).
+  assert (Cons : (if 0 <? bs then verify_consistency_fixed H cons bs b (h_blroot sh) (h_blroot th) else Ok true) = Ok true).
   { destruct (N.ltb_spec 0 bs); auto. }
   destruct (N.ltb_spec i b) as [Lt|Ge].
   - (* the source is inside the target's tree *)
@@ -196,7 +196,7 @@ Qed.
 Theorem dual_proof_complete hs cons i j :
   wf_hist H hs -> 1 <= i -> i <= j -> j <= lenN hs ->
   (0 < h_bltxid (hd_at hs i) ->
-   verify_consistency H cons (h_bltxid (hd_at hs i)) (h_bltxid (hd_at hs j))
+   verify_consistency_fixed H cons (h_bltxid (hd_at hs i)) (h_bltxid (hd_at hs j))
                       (h_blroot (hd_at hs i)) (h_blroot (hd_at hs j)) = Ok true) ->
   verify_dual_proof H (Some (gen_dual_proof H hs cons i j)) i j (A_at hs i) (A_at hs j) = Ok true.
 Proof. unfold verify_dual_proof. apply dual_proof_gen_complete. Qed.
@@ -208,8 +208,8 @@ Theorem dual_proof_v2_complete hs cons i j :
   h_bltxid (hd_at hs i) = i - 1 -> h_bltxid (hd_at hs j) = j - 1 ->
   (i < j ->
    (if i =? 1
-    then verify_consistency H cons i (j - 1) (leaf_for H (A_at hs i)) (h_blroot (hd_at hs j))
-    else verify_consistency H cons (i - 1) (j - 1) (h_blroot (hd_at hs i)) (h_blroot (hd_at hs j))) = Ok true) ->
+    then verify_consistency_fixed H cons i (j - 1) (leaf_for H (A_at hs i)) (h_blroot (hd_at hs j))
+    else verify_consistency_fixed H cons (i - 1) (j - 1) (h_blroot (hd_at hs i)) (h_blroot (hd_at hs j))) = Ok true) ->
   verify_dual_proof_v2 H (Some (gen_dual_proof_v2 H hs cons i j)) i j (A_at hs i) (A_at hs j) = Ok true.
 Proof.
   intros W Hi Hij Hj Bi Bj Hc.
@@ -259,7 +259,7 @@ Theorem client_accepts_honest hs cons (st : option (N * bytes)) (v : N) :
   (1 <= s /\ s <= lenN hs /\ (forall x, st = Some x -> snd x = A_at hs s)) ->
   let i := N.min s v in let j := N.max s v in
   (0 < h_bltxid (hd_at hs i) ->
-   verify_consistency H cons (h_bltxid (hd_at hs i)) (h_bltxid (hd_at hs j))
+   verify_consistency_fixed H cons (h_bltxid (hd_at hs i)) (h_bltxid (hd_at hs j))
                       (h_blroot (hd_at hs i)) (h_blroot (hd_at hs j)) = Ok true) ->
   client_step H st v (gen_dual_proof H hs cons i j) = Ok (Some (j, A_at hs j)).
 Proof.
